@@ -47,6 +47,7 @@ type Contract struct {
 	Trusted    bool                // contract is assumed, not verified (must be listed in evidence)
 	Inline     bool                // verified on its own, but callers inline the body
 	SeqMode    bool                // obligations of this function are discharged with byte strings as SMT sequences
+	Callbacks  map[string]bool     // function-typed parameters declared `callback p assigns nothing` (callback frame)
 	Mode       string              // "interference": verified with other goroutines allowed to change shared stores between calls
 	Discipline map[string][]string // ghost protocol disciplines checked on this function: name -> props
 	Effects    []*Effect
@@ -487,6 +488,18 @@ func (db *SpecDB) LoadSpecFile(path, pkgPath string) {
 			cur.Inline = true
 		case word == "seqmode":
 			cur.SeqMode = true
+		case word == "callback":
+			// callback <param> assigns nothing: calls through this function-typed parameter do not write memory that
+			// is reachable from the other arguments (assumed when the function is verified, checked where it is called)
+			f := strings.Fields(rest)
+			if len(f) != 3 || f[1] != "assigns" || f[2] != "nothing" {
+				fail("callback syntax: callback <param> assigns nothing")
+				continue
+			}
+			if cur.Callbacks == nil {
+				cur.Callbacks = map[string]bool{}
+			}
+			cur.Callbacks[f[0]] = true
 		case word == "discipline":
 			// discipline [props:label] walkers-drained | locks-released | no-graph-write-while-walking
 			props, _, body := parseTag(rest)
